@@ -14,7 +14,8 @@ EXPLANATION = (
     "written by _get_applims as the component's own (or default) pair per applicable key, unmodified, and read into "
     "limits=, the mux 'parents' are written from the priority-ordered parent list and read as add_comp's parent list, and "
     "every component is written under exactly one parent key; (R4) a file from a newer version raises ValueError before "
-    "anything is built. Not decided: JSON fidelity of floats; equality of solved values (follows from equal parameters).")
+    "anything is built; (R5) on every accepting constructor path the parameter the interpolator is built from is the root of "
+    "a stored _params entry (what is saved is what the component computes with). Not decided: JSON fidelity of floats; equality of solved values (follows from equal parameters).")
 
 TYPE_KINDS = {"CONVERTER": ["Converter"], "LINREG": ["LinReg"], "SLOSS": ["RLoss", "VLoss"], "LOAD": ["PLoad", "RLoad", "ILoad"],
               "PSWITCH": ["PSwitch"], "RECTIFIER": ["Rectifier"], "SOURCE": ["Source"], "PMUX": ["PMux"]}
@@ -29,6 +30,8 @@ def run(model, rep, tier):
     A(root_paths, model, rep)
     A(system_block, model, rep)
     A(version_gate, model, rep)
+    from ..ctors import stored_is_used_rule
+    A(stored_is_used_rule, model, rep, "R5")
 
 
 def params_written(model, kind):
